@@ -27,10 +27,11 @@ Print Assumptions C16_resumed_implies_options_set.
 (** the launch of a traced program (child || tracer || the kernel's rules for a tracee whose tracer dies),
     the tracer being killed at ANY moment: the program's code never runs with the tracer dead, nothing is
     left behind stopped, and a child that was cloned but has not yet asked for the parent-death signal
-    notices that its launcher is gone and exits *)
-Theorem C16_traced_launch_dies_with_tracer : forall s, lreach true s ->
+    (it asks after its ids were changed) notices that its launcher is gone and exits *)
+Theorem C16_traced_launch_dies_with_tracer : forall s, lreach ArmLate s ->
   (l_c s = LaunchDeath.CProgram -> l_t s <> LaunchDeath.TDead) /\
-  (l_t s = LaunchDeath.TDead -> l_c s = LaunchDeath.CDead \/ (l_c s = LaunchDeath.CInit /\ child_steps true s = [w_c s LaunchDeath.CDead])) /\
+  (l_t s = LaunchDeath.TDead -> l_c s = LaunchDeath.CDead \/ l_c s = LaunchDeath.CInit \/
+     (l_c s = LaunchDeath.CCred /\ child_steps ArmLate s = [w_c s LaunchDeath.CDead])) /\
   l_c s <> LaunchDeath.CParked.
 Proof. exact armed_supervised. Qed.
 Print Assumptions C16_traced_launch_dies_with_tracer.
@@ -39,7 +40,13 @@ Print Assumptions C16_traced_launch_dies_with_tracer.
     program running unsupervised (tracer killed between its first wait4 and PTRACE_SETOPTIONS) and the
     child left behind stopped (tracer killed before the first wait4) *)
 Theorem C16_without_pdeathsig_refuted :
-  (exists s, lreach false s /\ l_t s = LaunchDeath.TDead /\ l_c s = LaunchDeath.CProgram) /\
-  (exists s, lreach false s /\ l_t s = LaunchDeath.TDead /\ l_c s = LaunchDeath.CParked).
+  (exists s, lreach Unarmed s /\ l_t s = LaunchDeath.TDead /\ l_c s = LaunchDeath.CProgram) /\
+  (exists s, lreach Unarmed s /\ l_t s = LaunchDeath.TDead /\ l_c s = LaunchDeath.CParked).
 Proof. exact unarmed_refuted. Qed.
 Print Assumptions C16_without_pdeathsig_refuted.
+
+(** asking for the signal before the ids are changed would not do: the kernel clears the request when the ids change *)
+Theorem C16_pdeathsig_before_setuid_refuted :
+  exists s, lreach ArmEarly s /\ l_t s = LaunchDeath.TDead /\ l_c s = LaunchDeath.CProgram.
+Proof. exact arm_early_refuted. Qed.
+Print Assumptions C16_pdeathsig_before_setuid_refuted.
